@@ -83,6 +83,8 @@ func (c Call) UsesStopTag() bool {
 // Target is what calls are made on: a bare engine with its rule builder, or a pool.
 type Target struct {
 	Obs  *Obs
+	Eng2 *engine.Gengine // a second engine executing on the same rule builder (odd calls)
+	n    int
 	Eng  *engine.Gengine
 	RB   *builder.RuleBuilder
 	DC   *context.DataContext
@@ -103,7 +105,7 @@ func NewEngineTarget(obs *Obs, text string) (*Target, error) {
 	if err := CompileLocked(func() error { return rb.BuildRuleFromString(text) }); err != nil {
 		return nil, err
 	}
-	return &Target{Obs: obs, Eng: engine.NewGengine(), RB: rb, DC: dc}, nil
+	return &Target{Obs: obs, Eng: engine.NewGengine(), Eng2: engine.NewGengine(), RB: rb, DC: dc}, nil
 }
 
 // NewEngineTargetSplit installs the rule set in several steps: a full build of the first group
@@ -269,6 +271,10 @@ func (t *Target) Invoke(c Call, lg *Log) (out Outcome) {
 		t.DC.Add(dk, dv)
 	}
 	g, rb := t.Eng, t.RB
+	t.n++
+	if t.Eng2 != nil && t.n%3 == 0 {
+		g = t.Eng2 // engines keep no rule state: two of them may share one builder
+	}
 	var e error
 	switch c.Method {
 	case MExecute:
